@@ -177,7 +177,8 @@ def run(tier: str, seed: int) -> int:
     r.assumptions = ["graphql-core get_variable_values / executor are the model of spec-conformant coercion", "httpx.MockTransport is a faithful transport"]
     r.floors = {"variables_payloads": 300, "coercions_ok": 300, "resolver_argument_sets": 300, "required_omission_attempts": 50}
     n = 1500 if tier == "thorough" else 170
-    cases = [cw.make_case(seed, i, tier=tier) for i in range(n)]
+    name_classes = [[], [], [], [], ["names.keyword"], [], ["names.pydantic_attr"], [], ["names.leading_underscore"], ["names.soft_keyword"]]
+    cases = [cw.make_case(seed, i, dirty=name_classes[i % len(name_classes)], tier=tier) for i in range(n)]
 
     def on_result(case, res):
         r.add(case, res)
